@@ -135,7 +135,7 @@ VF_E sz s_find_ptr_n(S const& a, cp s, sz pos, sz n) { return a.find(s, pos, n);
 VF_E sz s_find_cstr(S const& a, cp s, sz pos) { return a.find(s, pos); }
 VF_E sz s_find_ch(S const& a, char c, sz pos) { return a.find(c, pos); }
 VF_E sz s_rfind_str(S const& a, S const& b, sz pos) { return a.rfind(b, pos); }
-#ifdef VF_WITH_RFIND_PTR_N
+#ifdef VF_WITH_RFIND_PTR_N // rfind(s, pos, n) cannot be instantiated on the pinned tree: it calls etl::strings::rfind with four arguments, no such overload
 VF_E sz s_rfind_ptr_n(S const& a, cp s, sz pos, sz n) { return a.rfind(s, pos, n); }
 #endif
 VF_E sz s_rfind_cstr(S const& a, cp s, sz pos) { return a.rfind(s, pos); }
